@@ -179,9 +179,37 @@ func (g *Gen) ViolateOne() *Constraint {
 			return nil
 		}},
 		{"electre-nonincreasing-thresholds", q.Method == "electreIII", func() []string {
-			e := jmap(jmap(mp["electreCriteria"])[q.Crits[0]])
-			e["q"] = J{"a": 0.0, "b": 2.0}
-			e["p"] = J{"a": 0.0, "b": r.PickF(2, 1)}
+			// constant thresholds must increase q < p < v, also when one of them is not used
+			e := jmap(jmap(mp["electreCriteria"])[q.Crits[r.Intn(len(q.Crits))]])
+			absent := func() interface{} {
+				if r.Bool(0.5) {
+					return J{"a": 0.0, "b": 0.0}
+				}
+				return nil
+			}
+			set := func(k string, v interface{}) {
+				if v == nil {
+					delete(e, k)
+				} else {
+					e[k] = v
+				}
+			}
+			switch r.Intn(4) {
+			case 0: // p <= q
+				set("q", J{"a": 0.0, "b": 2.0})
+				set("p", J{"a": 0.0, "b": r.PickF(2, 1)})
+			case 1: // v <= p
+				set("p", J{"a": 0.0, "b": 3.0})
+				set("v", J{"a": 0.0, "b": r.PickF(3, 2.5)})
+			case 2: // p not used, v <= q
+				set("q", J{"a": 0.0, "b": 5.0})
+				set("p", absent())
+				set("v", J{"a": 0.0, "b": r.PickF(5, 3)})
+			default: // q not used, v <= p
+				set("q", absent())
+				set("p", J{"a": 0.0, "b": 4.0})
+				set("v", J{"a": 0.0, "b": r.PickF(4, 1)})
+			}
 			return nil
 		}},
 		{"ratio-out-of-range", true, func() []string {
